@@ -31,10 +31,10 @@ func Validate(namespaces []*Namespace) (*Environment, error) {
 		validateRecordFieldNames,
 		validateProtocolSequenceNames,
 		validateArrayAndVectorDimensions,
-		validateMaps,
 		validateStreams,
 		buildSymbolTable,
 		resolveTypes,
+		validateMaps,
 		assignUnionCaseTags,
 		topologicalSortTypes,
 		convertGenericReferences,
